@@ -110,18 +110,35 @@ Section Spec.
   Notation fold_s := (fold_s cs).
   Notation item_text := (item_text brepr re_text it).
   Notation str_atom := (str_atom brepr).
+  (* x == item (after case folding of a str x), the test of __search_iterable *)
+  Notation equals_item := (shortcut c cs it).
+
+  Definition is_nil {A} (l : list A) : bool := match l with [] => true | _ => false end.
+  (* the last step of q is a position in a list / tuple / set *)
+  Fixpoint last_is_idx (q : path) : bool :=
+    match q with
+    | [] => false
+    | [s] => step_is_idx s
+    | _ :: r => last_is_idx r
+    end.
 
   (* ---- visibility of the location pre ++ rest, where obj sits at pre ---- *)
 
   (* as implemented: paths are tested at every level, types only for items of
-     lists / tuples / sets *)
-  Fixpoint vis (pre : path) (obj : value) (rest : path) {struct rest} : bool :=
+     lists / tuples / sets; an item of a list / tuple / set that EQUALS the searched
+     item is reported and not descended into ("the equality shortcut").
+     [vis false] = the location is reached by the search (it may be reported);
+     [vis true]  = the location is entered by __search (its own comparer runs, its
+                   children are visited): not a sequence item equal to the item. *)
+  Fixpoint vis (enter : bool) (pre : path) (obj : value) (rest : path) {struct rest} : bool :=
     negb (path_excl pre) &&
     match rest with
     | [] => true
     | s :: r =>
         match child obj s with
-        | Some ch => negb (step_is_idx s && ty_excl (type_of ch)) && vis (pre ++ [s]) ch r
+        | Some ch => negb (step_is_idx s && ty_excl (type_of ch))
+                     && negb (step_is_idx s && equals_item ch && (enter || negb (is_nil r)))
+                     && vis enter (pre ++ [s]) ch r
         | None => false
         end
     end.
@@ -147,7 +164,7 @@ Section Spec.
     | ERe b => Bool.eqb b isb && re_search txt
     | EAtom (AStr i) => negb isb && (if match_string c then pystr_eqb i txt else contains_sub i txt)
     | EAtom (ABytes i) => isb && (if match_string c then pystr_eqb i txt else contains_sub i txt)
-    | EAtom _ => false
+    | EAtom _ | EVal _ => false
     end.
   (* mixing str and bytes in `in` / pattern.search raises TypeError *)
   Definition str_raises (isb : bool) : bool :=
@@ -155,7 +172,7 @@ Section Spec.
     | ERe b => negb (Bool.eqb b isb)
     | EAtom (AStr _) => isb && negb (match_string c)
     | EAtom (ABytes _) => negb isb && negb (match_string c)
-    | EAtom _ => false
+    | EAtom _ | EVal _ => false
     end.
   (* a number: Python equality; loose: the text of the number *)
   Definition num_match (a : atom) : bool :=
@@ -163,6 +180,7 @@ Section Spec.
     | EAtom b => py_eq b a
                  || (negb (strict c) && match b with AStr i => pystr_eqb i (str_atom a) | _ => false end)
     | ERe b => negb (strict c) && negb b && re_search (str_atom a)
+    | EVal _ => false
     end.
   Definition num_raises : bool :=
     match it with ERe true => negb (strict c) | _ => false end.
@@ -185,6 +203,12 @@ Section Spec.
     match v with VAtom a => atom_match a | _ => false end.
   Definition leaf_raises (v : value) : bool :=
     match v with VAtom a => atom_raises a | _ => false end.
+  (* "v matches the item": by its comparer, or - for an item of a list / tuple / set -
+     by equality with the item (the only way a container is ever matched: K16h) *)
+  Definition match_at (seq_item : bool) (v : value) : bool :=
+    leaf_match v || (seq_item && equals_item v).
+  (* documented reading: the comparer, or equality with the item, wherever the value sits *)
+  Definition item_match (v : value) : bool := leaf_match v || equals_item v.
 
   (* "the path text contains the item" *)
   Definition text_match (txt : pystr) : bool :=
@@ -197,13 +221,18 @@ Section Spec.
     && match it with ERe true => true | _ => false end.
   Definition path_match (q : path) : bool := text_match (fold_s (render q)).
 
-  (* finding K16f: with the item None a str / bytes is searched as a custom object *)
+  (* finding K16f: with the item None (or a container item) a str / bytes is searched as a
+     custom object *)
+  Definition obj_searched : bool :=
+    match it with EAtom ANone | EVal _ => true | _ => false end.
   Definition attrs_of (v : value) : list pystr :=
-    match it, v with
-    | EAtom ANone, VAtom (AStr _) => str_attrs
-    | EAtom ANone, VAtom (ABytes _) => bytes_attrs
-    | _, _ => []
-    end.
+    if obj_searched then
+      match v with
+      | VAtom (AStr _) => str_attrs
+      | VAtom (ABytes _) => bytes_attrs
+      | _ => []
+      end
+    else [].
   Definition attr_text (p : path) (n : pystr) : pystr := fold_s (render p ++ [46%N] ++ n)%list.
 
   (* ---- the specifications as lists ---- *)
@@ -211,23 +240,24 @@ Section Spec.
   (* matched_values, with exclusion as implemented *)
   Definition matches_spec (obj : value) : list (path * value) :=
     if item_excl then []
-    else filter (fun pv => vis [] obj (fst pv) && leaf_match (snd pv)) (locations obj []).
+    else filter (fun pv => vis false [] obj (fst pv) && match_at (last_is_idx (fst pv)) (snd pv))
+                (locations obj []).
 
   (* matched_values, with exclusion as documented *)
   Definition matches_spec_doc (obj : value) : list (path * value) :=
-    filter (fun pv => vis_doc [] obj (fst pv) && leaf_match (snd pv)) (locations obj []).
+    filter (fun pv => vis_doc [] obj (fst pv) && item_match (snd pv)) (locations obj []).
 
   (* parent of a dictionary-entry location *)
   Definition entry_parent (q : path) : option path :=
     match rev q with SKey _ :: rp => Some (rev rp) | _ => None end.
 
   (* matched_paths as implemented: dictionary entries of visible dictionaries
-     whose path text matches (the entry's own path is not tested for exclusion:
-     finding K16b) *)
+     that are entered by the search and whose path text matches (the entry's own path
+     is not tested for exclusion: finding K16b) *)
   Definition paths_spec (obj : value) : list (path * value) :=
     if item_excl then []
     else filter (fun pv => match entry_parent (fst pv) with
-                           | Some par => vis [] obj par && path_match (fst pv)
+                           | Some par => vis true [] obj par && path_match (fst pv)
                            | None => false
                            end) (locations obj []).
 
@@ -242,9 +272,9 @@ Section Spec.
   Definition raises_spec (obj : value) : bool :=
     negb item_excl &&
     existsb (fun pv =>
-               (vis [] obj (fst pv) && leaf_raises (snd pv))
+               (vis true [] obj (fst pv) && leaf_raises (snd pv))
                || match entry_parent (fst pv) with
-                  | Some par => vis [] obj par && text_raises (fold_s (render (fst pv)))
+                  | Some par => vis true [] obj par && text_raises (fold_s (render (fst pv)))
                   | None => false
                   end) (locations obj []).
 
@@ -253,4 +283,6 @@ Section Spec.
     negb (ty_excl (type_of obj)) && dict_values_ok ty_excl obj.
   Definition k16b_guard (obj : value) : bool :=
     dict_paths_ok path_excl obj [].
+  (* the item is an atom (None, number, str, bytes) or a compiled pattern: no container item *)
+  Definition atom_item : bool := match it with EVal _ => false | _ => true end.
 End Spec.
